@@ -493,3 +493,69 @@ Print Assumptions C05_classify_read_examples.
 Theorem C05_register_list_check_is_complete : forall g id n, consec_ok (expand_list g id n) = true.
 Proof. exact consec_ok_complete. Qed.
 Print Assumptions C05_register_list_check_is_complete.
+
+(* ================================================================== round 7 *)
+
+(* ---- register-list members with the hypothesis id < 32 discharged: the lead register is whatever the instruction encodes,
+   every further member is the successor modulo 32 (C05_register_list_members is the special case id < 32) *)
+Theorem C05_register_list_members_any_lead : forall g n id i, (i < n)%nat ->
+  nth i (expand_list g id n) (LSlot 0) = LReg g (if Nat.eqb i 0 then id else N.modulo (id + N.of_nat i) 32).
+Proof. exact expand_list_nth_any. Qed.
+Print Assumptions C05_register_list_members_any_lead.
+
+Theorem C05_register_list_members_examples :
+  nth 2 (expand_list 1 30 3) (LSlot 0) = LReg 1 0 /\ nth 0 (expand_list 1 30 3) (LSlot 0) = LReg 1 30 /\
+  nth 1 (expand_list 1 31 2) (LSlot 0) = LReg 1 0 /\ nth 3 (expand_list 1 4 4) (LSlot 0) = LReg 1 7.
+Proof. vm_compute. repeat split; reflexivity. Qed.
+Print Assumptions C05_register_list_members_examples.
+
+(* ---- sequence-level lift of C05_inserted_instructions_frame: a run of k inserted-kind instructions (moves, swaps, labels,
+   jumps) takes the allocated program from t to its k-th silent successor for ANY instruction semantics and machine state,
+   and the world (memory of the program, calls made) is exactly what it was *)
+Theorem C05_inserted_code_runs_keep_the_world :
+  forall (world : Type) (sem : opcode -> list Z -> world -> list Z * world) (semc : opcode -> list Z -> world -> bool) tp k t x T W,
+  nxt_iter tp k t = Some x -> exists T', trun world sem semc k tp (t, T, W) = Next (x, T', W).
+Proof. exact silent_steps_keep_world. Qed.
+Print Assumptions C05_inserted_code_runs_keep_the_world.
+
+(* not vacuous: in the accepted spill loop three inserted instructions lead from pc 2 to pc 5; a matched instruction has no
+   silent successor *)
+Theorem C05_inserted_code_run_example : nxt_iter ex_good 3 2 = Some 5%nat /\ nxt_iter ex_good 1 0 = None.
+Proof. vm_compute. split; reflexivity. Qed.
+Print Assumptions C05_inserted_code_run_example.
+
+(* ---- divergence is preserved (sequence-level consequence of C05_validate_sound_return): if the source program never
+   returns from V0/W, an accepted allocated program never returns either, from any initial registers and stack *)
+Theorem C05_divergence_preserved : forall sp tp hs, validate sp tp hs = true ->
+  forall (world : Type) (sem : opcode -> list Z -> world -> list Z * world) (semc : opcode -> list Z -> world -> bool) V0 T0 W,
+  (forall k res W', srun world sem semc k sp (O, V0, W) <> Halt res W') ->
+  forall n res W', trun world sem semc n tp (O, T0, W) <> Halt res W'.
+Proof.
+  intros sp tp hs Hv world sem semc V0 T0 W Hdiv n res W' Hh.
+  destruct (validate_sound_halt sp tp hs Hv world sem semc V0 T0 W n res W' Hh) as [k Hk]. exact (Hdiv k res W' Hk).
+Qed.
+Print Assumptions C05_divergence_preserved.
+
+(* not vacuous: a source loop that never exits when its branch is always taken, an accepted allocation of it, and the
+   conclusion of C05_divergence_preserved for them *)
+Definition ex_src_forever : sprog := [ SOp 10%N [] [(1%N, 8%nat)]; SLabel 1%N; SCond 20%N [(1%N, 8%nat)] 1%N; SRet [(1%N, 8%nat)] ].
+Definition ex_forever : tprog := [ TOp 10%N [] [(LReg 0 7, 8%nat)]; TLabel 1%N; TCond 20%N [(LReg 0 7, 8%nat)] 1%N; TRet [(LReg 0 7, 8%nat)] ].
+Theorem C05_divergence_example :
+  validate ex_src_forever ex_forever [Some 0; Some 1; Some 2; Some 3]%nat = true /\
+  forall (sem : opcode -> list Z -> unit -> list Z * unit) V0 T0 n res W',
+    trun unit sem (fun _ _ _ => true) n ex_forever (O, T0, tt) <> Halt res W' /\
+    srun unit sem (fun _ _ _ => true) n ex_src_forever (O, V0, tt) <> Halt res W'.
+Proof.
+  assert (Hv : validate ex_src_forever ex_forever [Some 0; Some 1; Some 2; Some 3]%nat = true) by (vm_compute; reflexivity).
+  split; [exact Hv|]. intros sem V0 T0 n res W'.
+  assert (Hs : forall k pc V W, (pc = 1 \/ pc = 2)%nat -> exists c, srun unit sem (fun _ _ _ => true) k ex_src_forever (pc, V, W) = Next c).
+  { induction k; intros pc V W Hpc; [eexists; reflexivity|]. destruct Hpc as [-> | ->]; cbn [srun sstep nth_error ex_src_forever].
+    - apply IHk. right. reflexivity.
+    - cbn. apply IHk. left. reflexivity. }
+  assert (Hdiv : forall k res W', srun unit sem (fun _ _ _ => true) k ex_src_forever (O, V0, tt) <> Halt res W').
+  { intros k r w. destruct k; [discriminate|]. cbn [srun sstep nth_error ex_src_forever]. destruct (sem 10%N _ tt) as [rs w1].
+    destruct (Hs k 1%nat (swrite V0 [(1%N, 8%nat)] rs) w1 (or_introl eq_refl)) as [c Hc]. rewrite Nat.add_1_r in *. cbn. cbn in Hc. rewrite Hc. discriminate. }
+  split; [|apply Hdiv].
+  exact (C05_divergence_preserved ex_src_forever ex_forever _ Hv unit sem (fun _ _ _ => true) V0 T0 tt Hdiv n res W').
+Qed.
+Print Assumptions C05_divergence_example.
